@@ -385,7 +385,9 @@ FAMILY = {("position", "position"): "positional", ("position", "dpos"): "positio
 def same_data_verdict(lhs, rhs):
     """Differ._same_data is data equality (same tag, same value) on every pair
     (left sub-node, right sub-node); a loaded set carries no tag."""
-    sd = _E["Differ"]._same_data
+    sd = getattr(_E["Differ"], "_same_data", None)
+    if sd is None:
+        return None     # no such helper in this code: the entries themselves are judged (same / change / iff)
     L, R = subnodes(lhs, []), subnodes(rhs, [])
     for doc in (L, R):
         for n in doc:
@@ -550,7 +552,8 @@ def prepare(case):
     for a, b in pairs:
         res["req"].append("(valeq %s %s)" % (enc.node(a), enc.node(b)))
         try:
-            res["obs"].append(_b(E["Differ"]._same_data(a, b)))
+            sd = getattr(E["Differ"], "_same_data", None)
+            res["obs"].append("(missing)" if sd is None else _b(sd(a, b)))
         except Exception as e:  # noqa
             res["obs"].append(exc_line(e))
     res["verdicts"].append(same_data_verdict(lhs, rhs))
